@@ -94,6 +94,9 @@ def line_between_buses(
 
     """
     for line in line_list:
+        # A line that is out of service does not join its buses
+        if not line.connected:
+            continue
         if (line.tbus == bus1 and line.fbus == bus2) or (
             line.tbus == bus2 and line.fbus == bus1
         ):
